@@ -10,6 +10,9 @@ import "github.com/containers/nri-plugins/pkg/zzverif/vfkit"
 // (memory opt-out).
 func installOptOutObserver(e *executor, cpuOptOut, memOptOut func(c *rtCtr) bool) {
 	e.m.onTold = func(t toldUpdate, c *rtCtr) {
+		// once something is delivered to a container, nothing decided before a failed
+		// request is left undelivered for it
+		defer delete(e.tainted, t.Target)
 		if e.pendingViolation != nil || t.Res == nil {
 			return
 		}
@@ -37,7 +40,7 @@ func optKind(e *executor, t toldUpdate) string {
 	if e.inRejectedReconfig {
 		return t.Kind + "-of-leftovers-from-a-rejected-reconfiguration"
 	}
-	if e.failedPendingBefore && t.Kind != "adjust" {
+	if (e.failedPendingBefore || e.tainted[t.Target]) && t.Kind != "adjust" {
 		// decided before the container was opted out (or for its neighbours) while
 		// processing a request that then failed; delivered late (the C05 finding)
 		return t.Kind + ":after-failed-request"
